@@ -123,6 +123,11 @@ func checkC10(tier, replay string) int {
 			for _, fl := range []uint32{0, 1, 2, 3} {
 				for _, lm := range []bool{false, true} {
 					scripts = append(scripts, tsyncScript{Phases: v, Flags: fl, LoaderMain: lm, NNP: len(v)%2 == 0})
+					if len(v) <= 2 {
+						// history: an earlier thread-sync load (policy B) covered everyone; the load under test must behave as its own
+						// flag word says (without thread-sync: nobody else gets the new filter)
+						scripts = append(scripts, tsyncScript{Phases: v, Flags: fl, LoaderMain: lm, NNP: false, PriorSync: true})
+					}
 					if len(v) <= 2 && fl&1 != 0 {
 						// a thread with a private filter: the kernel refuses thread-sync; nil is only acceptable if everyone is covered
 						scripts = append(scripts, tsyncScript{Phases: v, Flags: fl, LoaderMain: lm, NNP: true, Divergent: true})
@@ -181,22 +186,28 @@ func checkC10(tier, replay string) int {
 			ctx.Violation("C10:load-failed:"+key, fmt.Sprintf("LoadFilter failed in a process without other filters: %s (phases %v)", *rep.Err, sc.Phases), sc)
 			return
 		}
-		if len(rep.Seam) != 1 || rep.Seam[0].Flags != uint64(sc.Flags) {
+		// only the calls that install a filter count: a library that probes for support first does nothing wrong
+		installs := installCalls(rep.Seam)
+		if len(installs) != 1 || installs[0].Flags != uint64(sc.Flags) {
 			ctx.Violation("C10:flags-modified:"+key, fmt.Sprintf("flags word at the syscall seam %+v differs from Filter.Flag %#x", rep.Seam, sc.Flags), sc)
 		}
 		atomic.AddInt64(&spawnedDuring, rep.Spawned)
 		tsync := sc.Flags&1 != 0
+		base, baseMode := 0, 0 // filters every thread has from the history before the load under test
+		if sc.PriorSync {
+			base, baseMode = 1, 2
+		}
 		for _, t := range rep.Threads {
 			atomic.AddInt64(&threadsChecked, 1)
 			atomic.AddInt64(&probes, 1)
 			if t.PhaseSeen != "" && !strings.HasPrefix(t.PhaseSeen, "?") {
 				atomic.AddInt64(&phaseVerified, 1)
 			}
-			if t.ProbeBefore != 0 {
+			if t.ProbeBefore != 0 && !sc.PriorSync {
 				ctx.Violation("C10:filtered-before-load", "a thread was filtered before any load", sc)
 			}
 			if tsync {
-				minF := 1
+				minF := 1 + base
 				if sc.OuterENOSYS {
 					minF = 2
 				}
@@ -207,20 +218,20 @@ func checkC10(tier, replay string) int {
 				if t.NNP != t.NNPBefore && !sc.OuterENOSYS {
 					ctx.Violation("C10:other-thread-touched:nnp", fmt.Sprintf("load without thread-sync changed the no_new_privs bit of another thread (%d, phase %s): %d -> %d", t.Tid, t.Phase, t.NNPBefore, t.NNP), sc)
 				}
-				if t.ProbeErrno != 0 || t.Seccomp != 0 || t.Filters != 0 {
+				if t.ProbeErrno != 0 || t.Seccomp != baseMode || t.Filters != base {
 					ctx.Violation("C10:other-thread-touched:"+t.Phase, fmt.Sprintf("load without thread-sync changed thread %d (phase %s): probe errno %d, Seccomp %d, filters %d", t.Tid, t.Phase, t.ProbeErrno, t.Seccomp, t.Filters), sc)
 				}
 			}
 		}
 		for _, o := range rep.Scan {
 			atomic.AddInt64(&threadsChecked, 1)
-			if tsync && (o.Seccomp != 2 || o.Filters < 1 || (sc.OuterENOSYS && o.Filters < 2)) {
+			if tsync && (o.Seccomp != 2 || o.Filters < 1+base || (sc.OuterENOSYS && o.Filters < 2)) {
 				ctx.Violation("C10:scan-thread-not-covered", fmt.Sprintf("after a thread-sync load thread %d (%s) has Seccomp=%d filters=%d", o.Tid, o.Role, o.Seccomp, o.Filters), sc)
 			}
-			if !tsync && o.Tid == rep.LoaderTid && o.Filters < 1 {
+			if !tsync && o.Tid == rep.LoaderTid && o.Filters < 1+base {
 				ctx.Violation("C10:loader-not-filtered", "loader thread has no filter after a nil return", sc)
 			}
-			if !tsync && !sc.Divergent && o.Role != "loader" && o.Role != "other" && !strings.HasPrefix(o.Role, "born-after") && o.Filters != 0 {
+			if !tsync && !sc.Divergent && o.Role != "loader" && o.Role != "other" && !strings.HasPrefix(o.Role, "born-after") && o.Filters != base {
 				ctx.Violation("C10:other-thread-touched:scan", fmt.Sprintf("load without thread-sync: thread %d (%s) has %d filters", o.Tid, o.Role, o.Filters), sc)
 			}
 		}
@@ -243,7 +254,7 @@ func checkC10(tier, replay string) int {
 			}
 			atomic.AddInt64(&bits, 1)
 			r := hr.Results[0]
-			if len(r.Seam) != 1 || r.Seam[0].Flags != uint64(fl) {
+			if in := installCalls(r.Seam); len(in) != 1 || in[0].Flags != uint64(fl) {
 				ctx.Violation(fmt.Sprintf("C10:flag-bit-modified:%d", b), fmt.Sprintf("Filter.Flag=%#x reached the syscall seam as %+v", fl, r.Seam), map[string]any{"flag": fl})
 			}
 		})
@@ -304,4 +315,15 @@ func straceFlagCheck(ctx *evid.Ctx) {
 		}
 	}
 	ctx.Cov["strace_flag_words_seen"] = seen
+}
+
+// installCalls keeps the seccomp(2) calls that install a filter (SECCOMP_SET_MODE_FILTER).
+func installCalls(seam []seamCall) []seamCall {
+	var out []seamCall
+	for _, c := range seam {
+		if c.Op == 1 {
+			out = append(out, c)
+		}
+	}
+	return out
 }
